@@ -41,3 +41,10 @@ Example C08_nonvacuous :
   may_have_internal_overlap false [3; 2] [1; 5] = false /\
   may_have_internal_overlap false [4; 4] [3; 4] = true.
 Proof. split; vm_compute; reflexivity. Qed.
+
+(* (5) the executable oracle used by the correspondence check's counterexample search is
+       complete: a layout it rejects really maps two valid indices to one offset *)
+From Tensor Require Import Overlap_oracle.
+Theorem C08_oracle_counterexample_is_genuine : forall dims,
+  injective_b dims = false -> ~ injective dims.
+Proof. exact oracle_false_is_counterexample. Qed.
